@@ -140,6 +140,10 @@ func c03RunCtx(cs c03Case) (res c03Res) {
 	}
 	var hmu sync.Mutex
 	var cur *holdState
+	var evs []connEv
+	abandonedIDs := map[uint32]bool{}
+	arrivals := 0
+	evStop := cs.ConnCap <= 0
 	var trace []string
 	tr := func(s string) {
 		if len(trace) < 80 {
@@ -169,7 +173,11 @@ func c03RunCtx(cs c03Case) (res c03Res) {
 		}
 		st.injected = true
 		tr(fmt.Sprintf("late-reply#%d %s", st.held.ID, where))
-		peer.Reply(lateFrame(st))
+		lf := lateFrame(st)
+		if !evStop {
+			evs = append(evs, connEv{K: "r", ID: st.held.ID, T: connTok(lf)})
+		}
+		peer.Reply(lf)
 	}
 	peerDone := make(chan struct{})
 	go func() {
@@ -182,6 +190,12 @@ func c03RunCtx(cs c03Case) (res c03Res) {
 			}
 			victim := c03K(q) < 100000
 			hmu.Lock()
+			if arrivals++; arrivals > cs.ConnCap {
+				evStop = true
+			}
+			if !evStop {
+				evs = append(evs, connEv{K: "a", ID: q.ID})
+			}
 			st := cur
 			if st != nil && st.held == nil && victim {
 				match := false
@@ -195,6 +209,7 @@ func c03RunCtx(cs c03Case) (res c03Res) {
 				if match {
 					qq := q
 					st.held = &qq
+					abandonedIDs[q.ID] = true
 					tr(fmt.Sprintf("hold#%d %s", q.ID, c03Canon(q)))
 					close(st.heldCh)
 					hmu.Unlock()
@@ -208,8 +223,12 @@ func c03RunCtx(cs c03Case) (res c03Res) {
 				st.sentSince++
 			}
 			tr(fmt.Sprintf("reply#%d %s", q.ID, c03Canon(q)))
+			frame := srv.reply(q)
+			if !evStop {
+				evs = append(evs, connEv{K: "r", ID: q.ID, T: connTok(frame)})
+			}
 			hmu.Unlock()
-			peer.Reply(srv.reply(q))
+			peer.Reply(frame)
 		}
 	}()
 
@@ -391,6 +410,17 @@ func c03RunCtx(cs c03Case) (res c03Res) {
 		res.ExitNow = true
 	}
 	res.Trace = trace
+	if len(res.Fails) == 0 && len(evs) > 0 && !cleanStop.Load() {
+		known := map[uint32]string{}
+		for _, e := range evs {
+			known[e.ID] = "reply"
+			if abandonedIDs[e.ID] {
+				known[e.ID] = "abandoned"
+			}
+		}
+		l := connObs{Events: evs, Base: evs[0].ID - 1, Known: known}.build()
+		res.Conn = &l
+	}
 	// one process per run of this family: whatever a late reply may have left behind in package-level state
 	// (a pooled channel holding a stale result, say) must not leak into the next case's attribution
 	res.ExitNow = true
